@@ -13,7 +13,8 @@
 (*                                                                         *)
 (* Two independent definitions of the total derivatives:                   *)
 (*  (A) the CLOSED FORM  cf[o][x]: path sums  sum_k B^k A  when B is       *)
-(*      nilpotent, (I-B)^-1 A by the adjugate otherwise, on the FULL       *)
+(*      nilpotent, (I-B)^-1 A with the exact integer inverse of Mat        *)
+(*      otherwise (both when both apply: NeumannEqInverse), on the FULL    *)
 (*      system; invariant IFT states that cf satisfies the implicit        *)
 (*      function equations discipline by discipline - a complete           *)
 (*      characterisation since I - B is invertible;                        *)
@@ -30,12 +31,18 @@
 (* history, Direct = Adjoint, subset independence, structural zeros and    *)
 (* shapes.                                                                 *)
 (*                                                                         *)
-(* Rules = "asread": the selection rules of the code as read today, with   *)
-(* the conditions under which the code raises (err).  Rules = "repaired":  *)
-(* the rules after the three repairs proposed in fixes/C07-*.patch (only   *)
-(* the group's own couplings are hidden from a merged node; no coupling    *)
-(* needed => dF/dx; sizes from the data and absent Jacobians are zero      *)
-(* blocks).  The property clauses are the same under both.                 *)
+(* inst.rules selects the selection rules of layer (B):                    *)
+(*   "asread"   the code as read today, with the conditions under which it *)
+(*              raises (err);                                              *)
+(*   "r3"       as read, except that a merged node hides / a member adds   *)
+(*              only the couplings of ITS OWN group (repair 3);            *)
+(*   "repaired" r3 + no coupling needed => dF/dx (repair 2) + sizes from   *)
+(*              the data, absent Jacobians are zero blocks (repair 1).     *)
+(* The property clauses (invariants) are demanded of "repaired", which is  *)
+(* the oracle of the replay; "asread"/"r3" PREDICT where the present code  *)
+(* raises or returns a wrong block (configurations AsRead* are expected to *)
+(* be refuted by TLC; the replay confirms each prediction on the real      *)
+(* code and attributes it to a known finding).                             *)
 (***************************************************************************)
 EXTENDS Integers, Sequences, FiniteSets, TLC, Mat
 
@@ -43,9 +50,11 @@ CONSTANTS Topos,      \* topology names to enumerate
           Profiles,   \* size profiles (bit k of the profile: size of the k-th name is 2)
           Choices,    \* indices into the coupling-block catalogue
           Seeds,      \* seeds of the non-coupling blocks
-          Rules,      \* "asread" | "repaired"
+          RuleSets,   \* subset of {"asread", "r3", "repaired"}: selection rules enumerated (inst.rules)
+          PreSets,    \* subset of {"fresh", "newton"}: state of the disciplines before the first request (inst.pre)
           MaxHist,    \* number of successive requests on the same assembly
           ReqMod, ReqRes,   \* explore request r of instance i iff (hash(i) + hash(r)) % ReqMod \in ReqRes
+          AdjMod,     \* thinning of the second requests adjacent to the first one (see Next)
           Emit        \* print INST / CASE records
 
 VARIABLES inst,   \* the system (constant along a behaviour)
@@ -53,7 +62,7 @@ VARIABLES inst,   \* the system (constant along a behaviour)
           last,   \* JacobianAssembly.__last_diff_inouts
           mc,     \* JacobianAssembly.__minimal_couplings
           hist,   \* the requests made so far
-          err,    \* "none" or the reason why the code raises on the last request
+          err,    \* the reasons why the code raises on the last request ({}: it does not)
           tot     \* result of the last request: [function -> [variable -> block]]
 vars == <<inst, dio, last, mc, hist, err, tot>>
 
@@ -115,7 +124,6 @@ Cat22 == << <<<<0,1>>,<<0,0>>>>, <<<<0,0>>,<<0,1>>>>, <<<<0,0>>,<<-1,0>>>>,
             <<<<1,1>>,<<-1,-1>>>>, <<<<0,2>>,<<0,0>>>>, <<<<0,-1>>,<<0,1>>>> >>
 CatBlock(r, c, k) == IF r = 1 THEN (IF c = 1 THEN Cat11[k] ELSE Cat12[k])
                      ELSE (IF c = 1 THEN Cat21[k] ELSE Cat22[k])
-NCat == 6
 
 Gen(o, i, sd, r, c) ==
   LET io == Idx(o)
@@ -185,7 +193,7 @@ Unimod(t, p, cb) ==
 
 \* mda_derivatives._replace_strongly_coupled: the graph in which a node stands for each strongly
 \* coupled group; the inputs of such a node hide the strong couplings.  Computed once per instance.
-Reduced(S) ==
+Reduced(S, Rules) ==
   LET N == Nodes(S)
       sc == StrongC(S)
       mg == {g \in N : Merged(S, g)}
@@ -255,8 +263,6 @@ Assemble(I, dd, rows, cols, residual) ==
                ELSE MNeg(Ident(I.size[o])))                                    \* -I on the residual diagonal
          ELSE (IF HasJ(I, dd, o, v) THEN I.J[o][v] ELSE z)])]))
 
-NFun(I, fs) == Dim(I.size, fs)
-
 \* CoupledSystem._direct_mode / _adjoint_mode, then split_jac
 Total(I, dd, cpl, ri, ro, mode) ==
   LET xs == Sorted(ri)
@@ -285,23 +291,26 @@ Total(I, dd, cpl, ri, ro, mode) ==
          TLCEval([x \in ri |-> SubMat(Tf, 0, I.size[f], OffsetOf(I.size, xs, x), I.size[x])])])
 
 \* the full request on a fresh assembly, in both modes (for SubsetIndependence)
-WithAll(I0) ==
+WithAll(I0, rules, pre) ==
   LET I == [key |-> I0.key, topo |-> I0.topo, S |-> I0.S, size |-> I0.size, J |-> I0.J,
             nilp |-> I0.nilp, cf |-> I0.cf,
-            R |-> Reduced(I0.S), prod |-> TLCEval([o \in AllOuts(I0.S) |-> Prod(I0.S, o)])]
+            R |-> Reduced(I0.S, rules), prod |-> TLCEval([o \in AllOuts(I0.S) |-> Prod(I0.S, o)])]
       tr == Traverse(I.S, I.R, DIn(I.S), AllOuts(I.S))
-  IN  [key |-> I.key, topo |-> I.topo, S |-> I.S, R |-> I.R, prod |-> I.prod, size |-> I.size, J |-> I.J,
+  IN  [key |-> I.key, rules |-> rules, pre |-> pre, topo |-> I.topo, S |-> I.S, R |-> I.R, prod |-> I.prod,
+       size |-> I.size, J |-> I.J,
        nilp |-> I.nilp, cf |-> I.cf,
        allD |-> Total(I, tr.add, tr.mc, DIn(I.S), AllOuts(I.S), "direct"),
        allA |-> Total(I, tr.add, tr.mc, DIn(I.S), AllOuts(I.S), "adjoint")]
 
-\* why the code as read raises (first reason in the order of total_derivatives)
+\* why the code as read raises: the set of reasons ({} = it does not).  The first one met in the
+\* order of total_derivatives decides the exception (unknown_size: ValueError in compute_sizes;
+\* empty_couplings: IndexError in _assemble_jacobian_as_matrix; not_linearized: KeyError/TypeError
+\* in _get_jacobian_generator); all are reported so that a partial repair is still attributed.
 Raises(I, dd, cpl, ri, ro) ==
-  IF \E v \in ri : ~ \E d \in 1..Len(I.S) : Linearized(dd, d) /\ v \in dd[d].i
-  THEN "unknown_size"          \* compute_sizes: "Failed to determine the size of input variable"
-  ELSE IF cpl = {} THEN "empty_couplings"     \* _assemble_jacobian_as_matrix: function_sizes[0]
-  ELSE IF \E o \in cpl \cup ro : ~HasRow(I, dd, o) THEN "not_linearized"   \* disciplines[f].jac[f]
-  ELSE "none"
+  (IF \E v \in ri : ~ \E d \in 1..Len(I.S) : Linearized(dd, d) /\ v \in dd[d].i
+   THEN {"unknown_size"} ELSE {})        \* "Failed to determine the size of input variable"
+  \cup (IF cpl = {} THEN {"empty_couplings"} ELSE {})          \* function_sizes[0]
+  \cup (IF \E o \in cpl \cup ro : ~HasRow(I, dd, o) THEN {"not_linearized"} ELSE {})   \* disciplines[f].jac[f]
 
 ----------------------------------------------------------------------------
 InstHash(I) == I.key[2] * 7 + I.key[4] * 3 + Len(I.S)
@@ -310,18 +319,27 @@ ReqHash(ri, ro, m) == SetHash(ri) * 5 + SetHash(ro) * 3 + (IF m = "direct" THEN 
 Modes == {"direct", "adjoint", "auto"}
 
 NoDio(S) == [d \in 1..Len(S) |-> [i |-> {}, o |-> {}]]
+\* A Newton MDA (MDANewtonRaphson._set_differentiated_ios, also as inner MDA of an MDAChain or second
+\* stage of MDAGSNewton) has already asked each discipline of a strongly coupled group for the
+\* Jacobian of its output couplings with respect to its input couplings.
+NewtonDio(S) ==
+  [d \in 1..Len(S) |->
+     LET g == Group(S, d)
+         ci == S[d].ins \cap GroupC(S, g)
+         co == S[d].outs \cap GroupC(S, g)
+     IN  IF Merged(S, g) /\ ci # {} /\ co # {} THEN [i |-> ci, o |-> co] ELSE [i |-> {}, o |-> {}]]
 
 Init ==
-  /\ \E t \in Topos, p \in Profiles :
-       /\ p < 2 ^ Cardinality(AllIns(Topo(t)) \cup AllOuts(Topo(t)))
+  /\ \E t \in Topos :
+     \E p \in {q % (2 ^ Cardinality(AllIns(Topo(t)) \cup AllOuts(Topo(t)))) : q \in Profiles} :
        /\ \E cb \in [CPairs(Topo(t)) -> Choices] :
             /\ Unimod(t, p, cb)
-            /\ \E sd \in Seeds : inst = WithAll(Build(t, p, cb, sd))
-  /\ dio = NoDio(inst.S)
+            /\ \E sd \in Seeds, rl \in RuleSets, pr \in PreSets : inst = WithAll(Build(t, p, cb, sd), rl, pr)
+  /\ dio = IF inst.pre = "newton" THEN NewtonDio(inst.S) ELSE NoDio(inst.S)
   /\ last = <<{}, {}>>
   /\ mc = {}
   /\ hist = <<>>
-  /\ err = "none"
+  /\ err = {}
   /\ tot = <<>>
 
 Request(ri, ro, mode) ==
@@ -332,26 +350,35 @@ Request(ri, ro, mode) ==
                                                         o |-> dio[d].o \cup tr.add[d].o]])
             ELSE dio
       nm == IF fresh THEN tr.mc ELSE mc
-      e  == IF Rules = "asread" THEN Raises(inst, nd, nm, ri, ro) ELSE "none"
+      e  == IF inst.rules = "repaired" THEN {} ELSE Raises(inst, nd, nm, ri, ro)
   IN  /\ dio' = nd
       /\ last' = <<ri, ro>>
       /\ mc' = nm
       /\ hist' = Append(hist, <<ri, ro, mode>>)
       /\ err' = e
-      /\ tot' = IF e = "none" THEN Total(inst, nd, nm, ri, ro, mode) ELSE <<>>
+      /\ tot' = IF e = {} THEN Total(inst, nd, nm, ri, ro, mode) ELSE <<>>
       /\ UNCHANGED inst
 
+\* Requests explored: those selected by the hash filter and, as SECOND request, also (one in
+\* AdjMod of) those that share exactly one of the two sets (variables, functions) with the first
+\* request - the histories on which a wrongly keyed cache of the minimal couplings would show.
+Selected(ri, ro, m) == (InstHash(inst) + ReqHash(ri, ro, m)) % ReqMod \in ReqRes
+Adjacent(ri, ro, m) ==
+  /\ Len(hist) = 1
+  /\ (ri = hist[1][1]) # (ro = hist[1][2])
+  /\ m = hist[1][3]
+  /\ (InstHash(inst) + ReqHash(ri, ro, m)) % AdjMod = 0
 Next ==
   /\ Len(hist) < MaxHist
   /\ \E ri \in SUBSET DIn(inst.S) \ {{}}, ro \in SUBSET AllOuts(inst.S) \ {{}}, m \in Modes :
-       /\ (InstHash(inst) + ReqHash(ri, ro, m)) % ReqMod \in ReqRes
+       /\ (Selected(ri, ro, m) \/ Adjacent(ri, ro, m))
        /\ Request(ri, ro, m)
 
 Spec == Init /\ [][Next]_vars
 
 ----------------------------------------------------------------------------
 (* the request the state answers                                            *)
-Answered == Len(hist) > 0 /\ err = "none"
+Answered == Len(hist) > 0 /\ err = {} /\ inst.rules = "repaired"
 RI == hist[Len(hist)][1]
 RO == hist[Len(hist)][2]
 RM == hist[Len(hist)][3]
@@ -369,7 +396,7 @@ IFT ==
                SumBlocks([c \in Cpl(S) |-> MMul(JB(S, sz, inst.J, o, c), inst.cf[c][x])],
                          Sorted(Cpl(S)), Zero(sz[o], sz[x])))
 
-\* path sums and the adjugate agree where both apply
+\* path sums and the inverse agree where both apply
 NeumannEqInverse ==
   inst.nilp =>
     LET S == inst.S
@@ -383,9 +410,21 @@ NeumannEqInverse ==
 AssembledIsClosedForm ==
   Answered => \A f \in RO : \A x \in RI : tot[f][x] = inst.cf[f][x]
 
-\* the residual sub-system selected by the minimal couplings is unimodular (the adjugate is the inverse)
+\* the residual sub-system selected by the minimal couplings is unimodular, and the integer matrix
+\* used as its inverse is its inverse
 SubsystemUnimodular ==
-  (Answered /\ mc # {}) => IsUnimodular(Assemble(inst, dio, Sorted(mc), Sorted(mc), TRUE))
+  (Answered /\ mc # {}) =>
+     LET M == Assemble(inst, dio, Sorted(mc), Sorted(mc), TRUE)
+     IN  IsUnimodular(M) /\ MMul(M, InvUnimod(M)) = Ident(NRows(M))
+
+\* the Gauss-Jordan inverse agrees with determinant and adjugate by cofactors (definitions of Mat);
+\* factorial cost: checked on the full residual matrix of the instances, in the initial states only
+InverseSound ==
+  Len(hist) = 0 =>
+     LET S == inst.S
+         C == Sorted(Cpl(S))
+         B == BlockOf(S, inst.size, inst.J, C, C)
+     IN  GJSound(MSub(Ident(NRows(B)), B))
 
 \* the other mode gives the same blocks; "auto" is one of the two
 DirectEqAdjoint ==
@@ -406,8 +445,17 @@ StructuralZeros ==
 Shapes ==
   Answered => \A f \in RO : \A x \in RI : IsMat(tot[f][x], inst.size[f], inst.size[x])
 
-\* the code never raises on a request the property quantifies over (refuted under "asread")
-NoRaise == err = "none"
+\* the code never raises on a request the property quantifies over: holds by construction of the
+\* repaired rules, REFUTED for the rules as read (configurations with AsReadNoRaise, expected to fail)
+NoRaise == inst.rules = "repaired" => err = {}
+AsReadNoRaise == err = {}
+\* the rules as read, when they do not raise, give the closed form: holds for the first request on
+\* FRESH disciplines, REFUTED for a second request on the same assembly and for a first request when
+\* a Newton MDA has prepared the disciplines (AsReadValues)
+AsReadFreshIsRight ==
+  (Len(hist) = 1 /\ err = {} /\ inst.pre = "fresh") => \A f \in RO : \A x \in RI : tot[f][x] = inst.cf[f][x]
+AsReadValues ==
+  (Len(hist) > 0 /\ err = {}) => \A f \in RO : \A x \in RI : tot[f][x] = inst.cf[f][x]
 
 \* the minimal couplings are a cache of the traversal for the last request
 CacheCoherent == Len(hist) > 0 => mc = Traverse(inst.S, inst.R, last[1], last[2]).mc
@@ -417,6 +465,6 @@ CacheCoherent == Len(hist) > 0 => mc = Traverse(inst.S, inst.R, last[1], last[2]
 EmitOK ==
   IF ~Emit THEN TRUE
   ELSE IF Len(hist) = 0
-       THEN PrintT(<<"INST", inst.key, inst.S, inst.size, inst.J, inst.nilp, inst.cf>>)
-       ELSE PrintT(<<"CASE", inst.key, hist, err, mc, tot>>)
+       THEN PrintT(<<"INST", inst.key, inst.rules, inst.pre, inst.S, inst.size, inst.J, inst.nilp, inst.R.N, inst.R.mg, inst.cf>>)
+       ELSE PrintT(<<"CASE", inst.key, inst.rules, inst.pre, hist, err, mc, tot>>)
 =============================================================================
